@@ -16,6 +16,8 @@
 #include <signal.h>
 #include <sys/mman.h>
 #include <sys/stat.h>
+#include <fcntl.h>
+#include <semaphore.h>
 #include <yara/arena.h>
 #include <yara/rules.h>
 
@@ -36,8 +38,8 @@ static const char* RULES_SRC =
     "rule ref { condition: s_text and not e_i3 }\n"
     "private rule priv { condition: filesize > 10 }\n global rule glob { condition: filesize > 0 }\n";
 
-enum { K_SCANNER_MEM, K_SCANNER_FILE, K_RULES_MEM, K_RULES_FILE, K_ABORT, K_CBERROR, K_NOFILE, K_REUSE, K_FAST, K_TIMEOUT, K_NKINDS };
-static const char* KNAME[] = {"scanner_mem", "scanner_file", "rules_mem", "rules_file", "cb_abort", "cb_error", "missing_file", "scanner_reuse", "fast_mode", "timeout"};
+enum { K_SCANNER_MEM, K_SCANNER_FILE, K_RULES_MEM, K_RULES_FILE, K_ABORT, K_CBERROR, K_NOFILE, K_REUSE, K_FAST, K_FD, K_TIMEOUT, K_NKINDS };
+static const char* KNAME[] = {"scanner_mem", "scanner_file", "rules_mem", "rules_file", "cb_abort", "cb_error", "missing_file", "scanner_reuse", "fast_mode", "scan_fd", "timeout"};
 
 #define NBUF 6
 static uint8_t* bufs[NBUF]; static size_t blen[NBUF]; static char bpath[NBUF][512];
@@ -56,7 +58,7 @@ static uint64_t fnv(uint64_t h, const void* p, size_t n) { const uint8_t* b = (c
 // handler protocol observed from outside: the application's SIGBUS handler (`app_handler`) must be in place whenever no scan is
 // inside YR_TRYCATCH, and replaced by libyara's while a scan is (every callback runs inside the protected region)
 static void app_handler(int sig, siginfo_t* si, void* uc) { _exit(77); }
-static int hnd_inside_bad, hnd_outside_bad;
+static int hnd_inside_bad, hnd_outside_bad, fd_bad;
 static int app_handler_installed(void)
 {
   struct sigaction sa; sigaction(SIGBUS, NULL, &sa);
@@ -123,6 +125,27 @@ static void work(JOB* j)
     int flags = SCAN_FLAGS_REPORT_RULES_MATCHING | SCAN_FLAGS_REPORT_RULES_NOT_MATCHING;
     switch (j->kind)
     {
+    case K_FD:
+    {
+      // the thread's OWN descriptor: after the scan it must still be open and refer to the same file (the library must not close it)
+      int fd = open(bpath[b], O_RDONLY);
+      if (fd < 0) { __atomic_add_fetch(&fd_bad, 1, __ATOMIC_RELAXED); break; }
+      if (it & 1) rc = yr_rules_scan_fd(rules, fd, flags, cb, &t, 0);
+      else
+      {
+        YR_SCANNER* sc = NULL;
+        if (yr_scanner_create(rules, &sc) == ERROR_SUCCESS)
+        {
+          define_ext(sc, j->idx); yr_scanner_set_flags(sc, flags); yr_scanner_set_callback(sc, cb, &t);
+          rc = yr_scanner_scan_fd(sc, fd);
+          yr_scanner_destroy(sc);
+        }
+      }
+      struct stat st;
+      if (fstat(fd, &st) != 0 || (size_t) st.st_size != blen[b]) __atomic_add_fetch(&fd_bad, 1, __ATOMIC_RELAXED);
+      if (close(fd) != 0) __atomic_add_fetch(&fd_bad, 1, __ATOMIC_RELAXED);
+      break;
+    }
     case K_RULES_MEM: rc = yr_rules_scan_mem(rules, bufs[b], blen[b], flags, cb, &t, 0); break;
     case K_RULES_FILE: rc = yr_rules_scan_file(rules, bpath[b], flags, cb, &t, 0); break;
     case K_REUSE:
@@ -183,6 +206,47 @@ static void fault_scan(FAULT* f, int tag)
   unlink(f->path);
 }
 static void* fault_thr(void* a) { pthread_barrier_wait(&bar); FAULT* f = (FAULT*) a; fault_scan(f, 100 + (int) (((uintptr_t) f / sizeof(FAULT)) % 100000)); return NULL; }
+
+// ---- too-many-matches parking scenario (library built with a small YR_MAX_STRING_MATCHES): thread A floods two strings; it answers CONTINUE for the
+// first one and PARKS inside the callback for the second one, i.e. while the first string is temporarily disabled in A's scan; meanwhile thread B scans a
+// buffer in which that first string occurs once. B's trace must equal its trace when run alone.
+static sem_t a_parked, b_done;
+typedef struct { TRACE t; int too_many; int park; } PARK;
+static int park_cb(YR_SCAN_CONTEXT* ctx, int msg, void* data, void* ud)
+{
+  PARK* p = (PARK*) ud;
+  if (msg == CALLBACK_MSG_TOO_MANY_MATCHES)
+  {
+    p->too_many++;
+    YR_STRING* s = (YR_STRING*) data;
+    p->t.h = fnv(p->t.h, s->identifier, strlen(s->identifier)); p->t.n++;
+    if (p->too_many == 2 && p->park) { sem_post(&a_parked); sem_wait(&b_done); p->park = 2; }
+    return CALLBACK_CONTINUE;
+  }
+  return cb(ctx, msg, data, &p->t);
+}
+static uint8_t flood[2048]; static size_t flood_len; static const uint8_t once[] = "xx needle yy haystack zz 0123456789 abcdefghij";
+typedef struct { RES r; } BRES;
+static void scan_once(RES* out)
+{
+  TRACE t = {0xcbf29ce484222325ULL, 0, 0, 0, 0};
+  YR_SCANNER* sc = NULL; out->rc = -1;
+  if (yr_scanner_create(rules, &sc) != ERROR_SUCCESS) return;
+  define_ext(sc, 1); yr_scanner_set_flags(sc, SCAN_FLAGS_REPORT_RULES_MATCHING | SCAN_FLAGS_REPORT_RULES_NOT_MATCHING); yr_scanner_set_callback(sc, cb, &t);
+  out->rc = yr_scanner_scan_mem(sc, once, sizeof once - 1); out->h = t.h; out->n = t.n;
+  yr_scanner_destroy(sc);
+}
+static void scan_flood(PARK* p, RES* out)
+{
+  YR_SCANNER* sc = NULL; out->rc = -1;
+  if (yr_scanner_create(rules, &sc) != ERROR_SUCCESS) return;
+  define_ext(sc, 2); yr_scanner_set_flags(sc, SCAN_FLAGS_REPORT_RULES_MATCHING | SCAN_FLAGS_REPORT_RULES_NOT_MATCHING); yr_scanner_set_callback(sc, park_cb, p);
+  out->rc = yr_scanner_scan_mem(sc, flood, flood_len); out->h = p->t.h; out->n = p->t.n;
+  yr_scanner_destroy(sc);
+}
+static PARK pa; static RES ra, rb;
+static void* thr_a(void* x) { scan_flood(&pa, &ra); if (pa.park == 1) sem_post(&a_parked); return NULL; }
+static void* thr_b(void* x) { sem_wait(&a_parked); scan_once(&rb); sem_post(&b_done); return NULL; }
 
 static uint64_t rules_hash(void)
 {
@@ -300,6 +364,28 @@ int main(int argc, char** argv)
   {
     int n = split(line, t, 8);
     if (n < 4) continue;
+    if (!strcmp(t[1], "P"))
+    {
+      int prot = ro_ok && !(n > 3 && !strcmp(t[3], "noprotect"));
+      flood_len = 0;
+      for (int k = 0; k < 40; k++) { memcpy(flood + flood_len, "needle ", 7); flood_len += 7; }
+      for (int k = 0; k < 40; k++) { memcpy(flood + flood_len, "haystack ", 9); flood_len += 9; }
+      RES b_alone, a_alone; PARK p0; memset(&p0, 0, sizeof p0); p0.t.h = 0xcbf29ce484222325ULL;
+      uint64_t h0 = rules_hash();
+      if (prot) protect(1);
+      scan_once(&b_alone); scan_flood(&p0, &a_alone);
+      memset(&pa, 0, sizeof pa); pa.t.h = 0xcbf29ce484222325ULL; pa.park = 1;
+      sem_init(&a_parked, 0, 0); sem_init(&b_done, 0, 0);
+      pthread_t ta, tb; pthread_create(&ta, NULL, thr_a, NULL); pthread_create(&tb, NULL, thr_b, NULL);
+      pthread_join(tb, NULL); pthread_join(ta, NULL);
+      if (prot) protect(0);
+      uint64_t h1 = rules_hash();
+      int mism = (rb.rc != b_alone.rc || rb.h != b_alone.h || rb.n != b_alone.n) + (ra.rc != a_alone.rc || ra.h != a_alone.h || ra.n != a_alone.n);
+      printf("%s P too_many=%d parked=%d mismatch=%d rules_hash=%s ro=%d b_alone=%s/%d/%016" PRIx64 " b_concurrent=%s/%d/%016" PRIx64 "\n", t[0], pa.too_many, pa.park == 2, mism,
+             h0 == h1 ? "same" : "CHANGED", prot, errname(b_alone.rc), b_alone.n, b_alone.h, errname(rb.rc), rb.n, rb.h);
+      fflush(stdout);
+      continue;
+    }
     if (!strcmp(t[1], "L"))
     {
       // <id> L <nthreads> <seed>: the main thread takes a SECOND reference on the library (as another component of the program would), threads scan,
@@ -335,7 +421,7 @@ int main(int argc, char** argv)
     int kinds[K_NKINDS] = {0}; int ntimeout = 0;
     for (int i = 0; i < nt; i++)
     {
-      int kind = (i * 5 + seed) % (K_NKINDS - 1);             // K_TIMEOUT only on request (slow): one thread when seed % 4 == 3
+      int kind = (i * 7 + seed) % (K_NKINDS - 1);             // K_TIMEOUT only on request (slow): one thread when seed % 4 == 3
       if (seed % 4 == 3 && i == nt / 2 && ntimeout == 0) { kind = K_TIMEOUT; ntimeout++; }
       kinds[kind]++;
       int its = kind == K_TIMEOUT ? 1 : (kind == K_REUSE ? iters * 4 : iters);
@@ -343,7 +429,7 @@ int main(int argc, char** argv)
       conj[i] = (JOB){i, kind, its, seed, (RES*) calloc(its, sizeof(RES)), 0};
     }
     uint64_t h0 = rules_hash();
-    hnd_inside_bad = 0; hnd_outside_bad = 0;
+    hnd_inside_bad = 0; hnd_outside_bad = 0; fd_bad = 0;
     if (!app_handler_installed()) hnd_outside_bad++;
     if (prot) protect(1);
     for (int i = 0; i < nt; i++) work(&seqj[i]);             // each logical thread alone
@@ -370,8 +456,8 @@ int main(int argc, char** argv)
           mism++;
         }
       }
-    printf("%s n=%d scans=%d mismatch=%d rules_hash=%s ro=%d handler_inside_bad=%d handler_outside_bad=%d kinds=", t[0], nt, scans, mism, h0 == h1 ? "same" : "CHANGED", prot,
-           hnd_inside_bad, hnd_outside_bad);
+    printf("%s n=%d scans=%d mismatch=%d rules_hash=%s ro=%d handler_inside_bad=%d handler_outside_bad=%d fd_bad=%d kinds=", t[0], nt, scans, mism, h0 == h1 ? "same" : "CHANGED", prot,
+           hnd_inside_bad, hnd_outside_bad, fd_bad);
     for (int k = 0; k < K_NKINDS; k++) if (kinds[k]) printf("%s:%d,", KNAME[k], kinds[k]);
     printf(" rcs=");
     for (int k = 0; k < 80; k++) if (rch[k]) printf("%s:%d,", errname(k), rch[k]);
